@@ -681,6 +681,7 @@ func runC13(c *Ctx) {
 
 	c.rule("C13.G2", blockValidatedDoc, func() { c.blockValidated() })
 	c.rule("C13.V1", "every lying peer of a batch is found: "+everyPositionComparedDoc, func() { c.everyPositionCompared() })
+	c.rule("C13.V2", everyServedCheckpointCheckedDoc, func() { c.everyServedCheckpointChecked() })
 
 	c.rule("C13.O2", "ban-on-misbehaviour sites enumerated: each detection site calls the ban function with its tabled reason (GetBlock handler x2 InvalidBlock; cfheaders handler InvalidFilterHeaderCheckpoint; getUncheckpointedCFHeaders x2 InvalidFilterHeader; resolveConflict x3; OnVersion NoCompactFilters)", func() {
 		type site struct {
